@@ -143,3 +143,61 @@ pub struct Violation {
     pub signature: String,
     pub detail: String,
 }
+
+/// signature -> (lowest run index, number of runs, detail of the lowest run)
+#[derive(Default, Clone, Debug)]
+pub struct ViolationTable(pub std::collections::BTreeMap<String, (u64, u64, String)>);
+
+impl ViolationTable {
+    pub fn add(&mut self, sig: String, idx: u64, detail: String) {
+        let e = self.0.entry(sig).or_insert((idx, 0, detail.clone()));
+        e.1 += 1;
+        if idx < e.0 {
+            e.0 = idx;
+            e.2 = detail;
+        }
+    }
+    pub fn merge(&mut self, other: ViolationTable) {
+        for (sig, (idx, cnt, det)) in other.0 {
+            let e = self.0.entry(sig).or_insert((idx, 0, det.clone()));
+            e.1 += cnt;
+            if idx < e.0 {
+                e.0 = idx;
+                e.2 = det;
+            }
+        }
+    }
+    pub fn total(&self) -> u64 {
+        self.0.values().map(|v| v.1).sum()
+    }
+    /// Split into (known-finding lines to print, new violations sorted by first run index).
+    pub fn classify(&self, property: &str, findings: &findings::Findings) -> (Vec<String>, Vec<(String, u64, u64, String)>) {
+        let mut known = Vec::new();
+        let mut new = Vec::new();
+        for (sig, (idx, cnt, detail)) in &self.0 {
+            if let Some(desc) = findings.lookup(property, sig) {
+                known.push(format!("KNOWN-FINDING: property={property} sig={sig} runs={cnt} first_run={idx} {desc}"));
+            } else {
+                new.push((sig.clone(), *idx, *cnt, detail.clone()));
+            }
+        }
+        new.sort_by_key(|v| v.1);
+        (known, new)
+    }
+}
+
+pub fn load_findings() -> findings::Findings {
+    findings::Findings::load(&format!("{VERIF_DIR}/KNOWN_FINDINGS.txt")).unwrap_or_else(|e| harness_error(&e))
+}
+
+/// Run `<current exe> <prop> --replay <path>` in a fresh process; true if it reproduces (exit 1).
+pub fn verify_replay_in_fresh_process(prop: &str, path: &str) -> bool {
+    let exe = std::env::current_exe().unwrap_or_else(|e| harness_error(&format!("current_exe: {e}")));
+    let st = std::process::Command::new(exe)
+        .args([prop, "--replay", path])
+        .stdout(std::process::Stdio::null())
+        .stderr(std::process::Stdio::null())
+        .status()
+        .unwrap_or_else(|e| harness_error(&format!("spawn replay: {e}")));
+    st.code() == Some(1)
+}
